@@ -182,7 +182,7 @@ type deployed struct {
 	tmpl string
 }
 
-var tmplNames = []string{"counter", "forwarder", "store_log", "reverter", "nested", "touch_and_revert", "suicide", "loop", "invalid", "badjump", "balances", "sink", "context", "creator", "restore", "triple_counter", "store_context", "suicide_caller", "prefund_creator"}
+var tmplNames = []string{"counter", "forwarder", "store_log", "reverter", "nested", "touch_and_revert", "suicide", "loop", "invalid", "badjump", "balances", "sink", "context", "creator", "restore", "triple_counter", "store_context", "suicide_caller", "prefund_creator", "create_then_revert"}
 
 // contractTx builds a random deployment or call.
 func (g *Gen) contractTx(v *View, from int, nonce uint64, price *uint256.Int, bal *big.Int) (*rctypes.Trx, string) {
@@ -212,6 +212,8 @@ func (g *Gen) contractTx(v *View, from int, nonce uint64, price *uint256.Int, ba
 			runtime = CreatorRuntime()
 		} else if name == "prefund_creator" {
 			runtime = PrefundCreatorRuntime()
+		} else if name == "create_then_revert" {
+			runtime = CreateThenFailRuntime("REVERT")
 		} else {
 			runtime = Asm(Programs[name], map[string][]byte{"callee": anyAddr(), "fresh": g.KR.Addr(g.NAcct + 1 + rng.Intn(4))})
 		}
@@ -222,7 +224,7 @@ func (g *Gen) contractTx(v *View, from int, nonce uint64, price *uint256.Int, ba
 		if gas < 120000 {
 			gas = 300000
 		}
-		if name == "creator" || name == "prefund_creator" {
+		if name == "creator" || name == "prefund_creator" || name == "create_then_revert" {
 			gas = 900000
 		}
 		return web3.NewTrxContract(g.KR.Addr(from), types.ZeroAddress(), nonce, gas, price, u256(value), Deployer(runtime, int64(rng.Intn(3)))), "contract:deploy:" + name
